@@ -261,6 +261,9 @@ def impl_multi(case):
 
 def job(j):
     tag, comp, cases = j
+    if tag == 'server':
+        from props import c18
+        return tag, core.eval_cases(comp, cases, c18.impl_server)
     return tag, core.eval_cases(comp, cases, impl_port if tag == 'port' else impl_multi)
 
 
@@ -339,7 +342,24 @@ def run(out):
         c += [rng.randrange(1, 4)]
         multis.append(c)
     multis += [[4, 1, 1, 0, 1, 5, 1], [4, 1, 2, 0, 0, 0, 1, 5, 2], [4, 0, 1, 0, 0, 1]]
-    jobs = chunk_jobs(cases, 'port', COMP_PORT) + chunk_jobs(multis, 'multi', COMP_MULTI, 4)
+    # PortServer (a MultiPort over accepted socket connections, mido/sockets.py): blocking and non-blocking receive with clients that have
+    # a message deliverable, through the C18 runner on real loop-back connections (model component 111)
+    servers = []
+    for _ in range(30 if out.tier == 'quick' else 300):
+        def client():
+            m = [0x90 | rng.randrange(16), rng.randrange(128), rng.randrange(128)]
+            return rng.choice([m, m + [-1], m + [-2], [], [-2], m[:2] + [-1] + m[2:]])
+        cl = [client() for _ in range(rng.randrange(1, 3))]
+        wt = [client() for _ in range(rng.randrange(0, 2))]
+        c = [1, 1, 4, rng.choice([1, 1, 0]), len(cl)]
+        for e in cl:
+            c += [len(e)] + e
+        c += [len(wt)]
+        for e in wt:
+            c += [len(e)] + e
+        c += [rng.randrange(1, 4)]
+        servers.append(c)
+    jobs = chunk_jobs(cases, 'port', COMP_PORT) + chunk_jobs(multis, 'multi', COMP_MULTI, 4) + chunk_jobs(servers, 'server', 111, 4)
     for tag, rec in core.pmap(job, jobs):
         core.merge_into(out, rec, tag)
     out.rule = ('device doubles (BaseIOPort and EchoPort subclasses recording _open/_close/_send, fed by a script of _receive actions: message, nothing, push into the queue, '
